@@ -300,6 +300,8 @@ _old_binop = Lib.binop
 def _binop(self, interp, op, a, b, node):
     if op == "+" and (isinstance(a, SStr) or isinstance(b, SStr)) and isinstance(a, (str, SStr)) and isinstance(b, (str, SStr)):
         return mk(parts_of(a) + parts_of(b))
+    if op == "+" and (isinstance(a, SStr) or isinstance(b, SStr)) and any(isinstance(x, SOpaque) and x.tag == "str" for x in (a, b)):
+        return SOpaque("str")
     if op == "*" and ((isinstance(a, str) and isinstance(b, SInt)) or (isinstance(b, str) and isinstance(a, SInt))):
         text, n = (a, b) if isinstance(a, str) else (b, a)
         t = tz(n)
